@@ -4,13 +4,39 @@ import xtract
 from common import SRC
 from numeric import Unit, run_numeric, replay_file
 
-# functions the property covers that are NOT discharged deductively (left out of the CONTRACT_ macros on purpose,
-# the contract is not weakened): (C name, reason).  The lead wires a bounded stand-in (DESIGN 3.4) for these.
+# Functions the property covers that are NOT discharged deductively.  Their (un-weakened) contracts are in contracts/sa_bounded.h:
+# attached to the functions (so callers can be checked against them with --replace-call-with-contract) but never enforced
+# or counted by numeric.py, which only reads the CONTRACT_ macros of the main spec file.  (C name, reason).
+# The lead wires the bounded stand-in (DESIGN 3.4) for these.
+WB = 'fans_sa_steady_wall_bounded__'
+FS = 'fans_sa_transient_free_shear__'
+_WB_SRC = ('the spec (generic jets of the documented fields) agrees with the code on 19.5k admissible native samples to 1e-17, but the identity '
+           'needs, inside one large formula: d/dx sqrt(c (k x)^(-1/7)) = -(1/14x) (..) [power law + inverse scaling], y inv(y) = 1, '
+           '(u_inf/A)(A/u_inf) = 1, f_v1\' = 3 f_v1 (1-f_v1)/chi with chi = rho nu/mu, inv(rho nu) = inv(rho) inv(nu); cvc5/z3/z3-new time out (150 s) '
+           'even in the hand-rendered monomial form (-DWB_RENDERED)')
 BOUNDED = [
     ('rans_sa__dvt_1', 'd/d eta[nu*fv1(chi)] vs the code form n^3(n^3+4a^3)nu\'/(n^3+a^3)^2, a=cv1/re_tau: needs the inverse-scaling '
                        'identity inv(re^3 q) = inv(re)^3 inv(q) under a differentiation; cvc5/z3/z3-new time out at 300 s (also with nu atomic). '
-                       'Its contract is in contracts/sa_bounded.h and is used (replace) by eval_q_u.'),
-]
+                       'Its contract is used (replace) by eval_q_u.'),
+    (FS + 'eval_q_nu_3', 'production term: spec |Omega| = sqrt(Omega^2), code pi*sqrt(w^2/L^2): needs sqrt(pi^2 a) = pi sqrt(a), pi > 0; the lemma alone '
+                         '(z3 0.1 s) and the rest of the identity (z3 seconds, with the sqrt factored as in the code) are provable, together not in 200 s. '
+                         'No native counterexample in 20000 samples.'),
+    (FS + 'eval_q_rho_u_2', 'ret == eval_q_rho_u(x,y,0): CBMC 6.11 invariant violation (std_expr.cpp:134, constant folding of rationals) when the '
+                            '3-argument body is specialised at t = 0.0; no native counterexample'),
+    (FS + 'eval_q_rho_e_2', 'ret == eval_q_rho_e(x,y,0): same CBMC 6.11 invariant violation; no native counterexample'),
+    (WB + 'update_2', 'CBMC 6.11 invariant violation on the extracted body (D2vDxy = -15/14*V/x/y with V = ...*1/14: negative non-integer rational '
+                      'constant folded in a product); besides, Omega needs sqrt(c^2 a) = c sqrt(a) and the derivative members the identities below. '
+                      'All 46 cached members agree with the contract on 19.5k admissible native samples.'),
+    (WB + 'eval_q_rho_2', _WB_SRC + '. With -DWB_RENDERED and update replaced by its contract the postcondition alone IS proved by z3 4.8 (<120 s), '
+                          'but not in the framework\'s all-properties query and the vacuity guard cannot be decided (see eval_exact_*).'),
+    (WB + 'eval_q_rho_u_2', _WB_SRC),
+    (WB + 'eval_q_rho_v_2', _WB_SRC),
+    (WB + 'eval_q_rho_e_2', _WB_SRC),
+    (WB + 'eval_q_nu_2', _WB_SRC + '; additionally sqrt(c^2 a) = c sqrt(a) for Omega'),
+] + [(WB + 'eval_exact_%s_2' % v,
+      'value-level identity against update\'s contract; proved by z3 (40-50 s, eval_exact_rho in-framework) but the vacuity canary is undecided: the '
+      'solvers return no model in 30 s and the uniform [-2,2] native sampler never meets the 17 sign conditions of the admissible region; '
+      'dropping the precondition would let NaN inputs reach the native twin') for v in ('u', 'v', 't', 'rho', 'nu')]
 
 
 def _calls(cls, src):
@@ -25,14 +51,16 @@ def units():
     # s() calls du() five times: five replaced calls defeat the solvers, the one-line body of du inlines fine
     rep['rans_sa__s_1'] = [c for c in rep['rans_sa__s_1'] if c != 'rans_sa__du_1']
     us.append(Unit('rans_sa', 'rans_sa.cpp', 'sa.spec.h', defines=['UNIT_rans_sa 1'], replace=rep))
+    # the two-argument wrappers are checked against the extracted three-argument bodies themselves (no replacement)
     us.append(Unit('fans_sa_transient_free_shear', 'fans_sa.cpp', 'sa.spec.h', defines=['UNIT_fans_sa_transient_free_shear 1']))
     wb = 'fans_sa_steady_wall_bounded'
     wrep = _calls(wb, 'fans_sa.cpp')      # every evaluator calls update(x,y) first: replaced by update's contract
-    us.append(Unit(wb, 'fans_sa.cpp', 'sa.spec.h', defines=['UNIT_fans_sa_steady_wall_bounded 1'], replace=wrep))
+    us.append(Unit(wb, 'fans_sa.cpp', 'sa.spec.h', defines=['UNIT_fans_sa_steady_wall_bounded 1'], replace=wrep, timeout=240,
+                   sample='defaults', arg_box={'x': (0.05, 3.0), 'y': (1e-4, 0.2)}))
     return us
 
 
 def run(tier, seed):
-    return run_numeric('C05', units(), tier, seed, design_ref='4/C05')
+    return run_numeric('C05', units(), tier, seed, design_ref='4/C05', bounded=BOUNDED)
 
 replay = replay_file
